@@ -4,7 +4,9 @@
 (* scheduler-chosen order; with asynchronous verification the completion order of the parked    *)
 (* verifications is a scheduler decision too.  Lines:                                           *)
 (*  new {n,q,async}, round, proposal {qcs,held}, vote {from,signers,valid,block,known,qcs,held}, *)
-(*  verified {qcs,held} (one parked verification completed), stalled                             *)
+(*  verified {qcs,held} (one parked verification completed), stalled,                            *)
+(*  tcview {qcs,held,view}: R left the view on a timeout certificate (its high QC is unchanged):  *)
+(*  the votes collected for the block stay collected                                              *)
 EXTENDS VoteCollector, Json, TLC
 Trace == ndJsonDeserialize("trace.ndjson")
 VARIABLES l, cfg, V, waiting, known, formed, inflight
@@ -48,7 +50,7 @@ QCsOK(x) == \A i \in 1..Len(x.qcs) :
                 /\ x.qcs[i].cur
 \* synchronous verification: the certificate appears exactly at the line at which the counted votes reach the quorum
 SyncStep ==
-    (l < Len(Trace) /\ Line.op \in {"vote", "proposal"} /\ ~cfg.async) =>
+    (l < Len(Trace) /\ Line.op \in {"vote", "proposal", "tcview"} /\ ~cfg.async) =>
     /\ QCsOK(Line)
     /\ (Len(Line.qcs) > 0) <=> (~formed /\ Cardinality(V) < cfg.q /\ Cardinality(NewCount(Line)) >= cfg.q)
     /\ \A i \in 1..Len(Line.qcs) : ToSet(Line.qcs[i].signers) \subseteq NewCount(Line)     \* only counted votes are in it
@@ -56,7 +58,7 @@ SyncStep ==
 \* verifications have all completed, a certificate exists iff the countable votes delivered reached the quorum (checked by
 \* the driver-independent end-of-round line)
 AsyncStep ==
-    (l < Len(Trace) /\ Line.op \in {"vote", "proposal", "verified"} /\ cfg.async) => QCsOK(Line)
+    (l < Len(Trace) /\ Line.op \in {"vote", "proposal", "verified", "tcview"} /\ cfg.async) => QCsOK(Line)
 \* end of a round (no verification pending any more): the certificate exists iff the countable votes that arrived for
 \* the block (own vote included) reach the quorum -- hostile votes neither count nor prevent it
 EndStep ==
@@ -65,7 +67,7 @@ PropertyOK == [][SyncStep /\ AsyncStep /\ EndStep]_vars
 \* Pass B: the real list of verified votes held by the collector (synchronous mode)
 ConformStep ==
     \* (votes that were queued behind the certificate's own event are still stored for the block: not modelled)
-    (l < Len(Trace) /\ Line.op \in {"vote", "proposal"} /\ ~cfg.async /\ ~formed /\ Len(Line.qcs) = 0) =>
+    (l < Len(Trace) /\ Line.op \in {"vote", "proposal", "tcview"} /\ ~cfg.async /\ ~formed /\ Len(Line.qcs) = 0) =>
        ToSet(Line.held) = NewCount(Line)
 ConformsToModel == [][ConformStep]_vars
 =============================================================================
